@@ -152,6 +152,9 @@ struct Runtime {
     int freeze_tid = -1;
     uint64_t freeze_at = 0;  // freeze when own_steps reaches this (>0)
     bool frozen = false;
+    bool freeze_armed = false;       // the designated thread is inside the operation whose steps are enumerated
+    uint64_t freeze_span = 0;        // steps the designated thread executed between arm and disarm (dry runs)
+    bool freeze_happened = false;
     uint64_t spurious_pct = 1;  // percent of cv waits that return spuriously (serial)
     uint64_t timeout_pct = 4;   // percent of decisions that fire a time-out on a timed waiter
     bool timeouts_fired = false;
@@ -379,12 +382,13 @@ inline void serial_point(ThreadCtx& c, Kind k, const void* obj)
             t.prio = --rt.lowprio;
         }
     }
-    if (rt.freeze_tid == me && rt.freeze_at != 0 && t.own_steps == rt.freeze_at && !rt.frozen) {
+    if (rt.freeze_tid == me && rt.freeze_armed && rt.freeze_at != 0 && t.own_steps == rt.freeze_at && !rt.frozen) {
         bool others = false;
         for (int i = 0; i < rt.sn; i++)
             if (i != me && rt.sth[i].st != SThread::DONE) others = true;
         if (others) {
             rt.frozen = true;
+            rt.freeze_happened = true;
             t.st = SThread::FROZEN;
             t.obj = obj;
             t.where = kind_name(k);
@@ -394,6 +398,22 @@ inline void serial_point(ThreadCtx& c, Kind k, const void* obj)
     }
     (void)obj;
     serial_reschedule(me, yielded);
+}
+
+// freeze engine: the designated thread brackets the operation whose suspension points are enumerated
+inline void freeze_arm()
+{
+    ThreadCtx& c = ctx();
+    if (rt.engine.load(std::memory_order_relaxed) != E_SERIAL || c.vtid < 0 || rt.freeze_tid != c.vtid) return;
+    rt.sth[c.vtid].own_steps = 0;
+    rt.freeze_armed = true;
+}
+inline void freeze_disarm()
+{
+    ThreadCtx& c = ctx();
+    if (rt.engine.load(std::memory_order_relaxed) != E_SERIAL || c.vtid < 0 || rt.freeze_tid != c.vtid) return;
+    rt.freeze_span = rt.sth[c.vtid].own_steps;
+    rt.freeze_armed = false;
 }
 
 // block the calling vthread (state set by caller) until made runnable again
